@@ -93,8 +93,14 @@ func (rt *dynamicImpersonatingRoundTripper) WrapRequest(req *http.Request) (*htt
 }
 
 // validateImpersonationValues reports an error if a part of the identity cannot
-// be carried unchanged in an HTTP header field value.
+// be carried unchanged in an HTTP header field value, or cannot be told to the
+// upstream at all.
 func validateImpersonationValues(u user.Info) error {
+	// An empty Impersonate-User value is "no impersonation" for an API server:
+	// the request would be served under the gateway's own credential.
+	if len(u.GetName()) == 0 {
+		return fmt.Errorf("a user without a name can not be impersonated")
+	}
 	if !httpguts.ValidHeaderFieldValue(u.GetName()) {
 		return fmt.Errorf("user name %q can not be sent in an impersonation header", u.GetName())
 	}
